@@ -33,7 +33,7 @@ SRC_DIRS = ["smt", "smt/arith", "smt/arith/lra", "smt/arith/dl", "smt/ov", "smt/
 PROPS = ("C01", "C03", "C06", "C17")
 EXTRACT = """From Coq Require Import Extraction ExtrOcamlBasic.
 From ORatio Require Import plan.Ast plan.Sem plan.Check plan.Temporal.
-Extraction "plan_model.ml" check_solution check_top check_rules check_goals check_unified check_acyclic check_temporal check_ctors check_domains check_field_vars support_edges full_program chk_stmt active_okb unified_okb goal_rules_okb fact_applied pfuel.
+Extraction "plan_model.ml" check_solution check_top check_rules check_goals check_unified check_acyclic check_temporal check_ctors check_domains check_field_vars check_arg_types support_edges full_program chk_stmt active_okb unified_okb goal_rules_okb fact_applied pfuel.
 """
 MODEL_VO = ["plan/Ast.vo", "plan/Sem.vo", "plan/Check.vo", "gen/Gen_init.vo", "plan/Temporal.vo"]
 
@@ -89,7 +89,7 @@ def run_checker(oexe, sx):
         t = line.split()
         if not t:
             continue
-        if t[0] in ("top", "rules", "goals", "unified", "acyclic", "temporal", "ctors", "domains", "solution"):
+        if t[0] in ("top", "rules", "goals", "unified", "acyclic", "temporal", "ctors", "argtypes", "domains", "solution"):
             out[t[0]] = t[1] == "1"
         elif t[0].startswith("fail-"):
             out["fail"].append((t[0][5:], int(t[1])) + tuple(t[2:]))
@@ -204,6 +204,11 @@ def canon_value(dump_envs, val):
         if len(val["vals"]) != 1:
             return ("multi", tuple(val["vals"]))
         t = dump_envs.get(val["vals"][0])
+        if t is not None and t["kind"] == "var":
+            # the value is itself an object variable (a field that is an existential): follow it
+            if len(t.get("dom", [])) != 1:
+                return ("multi", tuple(t.get("dom", [])))
+            return canon_value(dump_envs, {"k": "v", "vals": t["dom"]})
         return ("s", t["str"]) if t is not None and t["kind"] == "string" else ("o", val["vals"][0])
     return ("?",)
 
@@ -421,6 +426,10 @@ def shared_run(seed, tier, log=print):
                 cases.append(("%s-%d" % (fam, k), prog, text, feats, fam))
         for k, (prog, text) in enumerate(plan_gen.directed_temporal()):
             cases.append(("tl-directed-%d" % k, prog, text, {"directed_temporal": 1}, "tl_directed"))
+        for fam, gen in (("bd", plan_gen.directed_boundary), ("hier", plan_gen.directed_hierarchy), ("chain", plan_gen.directed_chain),
+                         ("narrow", plan_gen.directed_narrowing)):
+            for k, (prog, text) in enumerate(gen()):
+                cases.append(("%s-%d" % (fam, k), prog, text, {"directed_" + fam: 1}, fam))
         for k, (prog, texts) in enumerate(plan_gen.directed_incremental()):
             cases.append(("incr-%d" % k, prog, texts, {"incremental": 1}, "incr"))
         mut_rng = random.Random(seed + 17)
@@ -436,7 +445,7 @@ def shared_run(seed, tier, log=print):
                         v, info = judge(oexe, prog, dump)
                     except Exception as e:   # noqa
                         v, info = {"error": "conversion failed: %r" % (e,)}, None
-                    rec["verdict"] = {k: v.get(k) for k in ("top", "rules", "goals", "unified", "acyclic", "temporal", "ctors", "domains", "solution",
+                    rec["verdict"] = {k: v.get(k) for k in ("top", "rules", "goals", "unified", "acyclic", "temporal", "ctors", "argtypes", "domains", "solution",
                                                               "rank_by_positions", "graph_acyclic", "error", "conv_unknown", "factrules_mismatch", "derived", "positions_model", "n_var_recs")}
                     rec["fail"] = v.get("fail", [])
                     rec["n_init_main"] = v.get("n_init_main", 0)
